@@ -5,6 +5,7 @@ checksum are regenerated over the re-encoded options — and the packet comes ba
 -/
 import Schc.Proofs.UnparseStack
 import Schc.Proofs.StackRoundtrip
+import Schc.Proofs.StackRoundtrip4
 
 namespace Schc
 open Bits Compute
@@ -231,6 +232,136 @@ theorem roundtrip_ipv6_udp_coap_semantic
   have hsb : (pairs hs.fields).flatMap (·.2.bits) = fbits hs.fields := by simp [pairs, fbits, List.flatMap_map]
   refine Eq.trans (b := pf12.flatMap (·.value.bits) ++ ((pairs hs.fields).flatMap (·.2.bits) ++ payload.bits)) ?_ ?_
   · rw [← e12]; simp [List.append_assoc]
+  · rw [hpf', hsb, t1, t2, t3, ← hpl]
+    simp only [ABuf.from_, List.append_assoc, List.take_append_drop]
+
+/-! ### the IPv4 variant -/
+
+theorem Valid4_rest_congr {a0 a1 a2 a3 a4 a5 a6 a7 a8 a9 a10 a11 u0 u1 u2 u3 : ABuf} {rest rest' : Fields}
+    (er : rest.flatMap (·.2.bits) = rest'.flatMap (·.2.bits))
+    (h : Valid4 a0 a1 a2 a3 a4 a5 a6 a7 a8 a9 a10 a11 u0 u1 u2 u3 rest) : Valid4 a0 a1 a2 a3 a4 a5 a6 a7 a8 a9 a10 a11 u0 u1 u2 u3 rest' := by
+  obtain ⟨hnu, hnt, l3, l9, l14, l15, htl, hul, hhc, c, hck, hcb⟩ := h
+  have hlen : ∀ x y : ABuf, (upOf u0 u1 x y rest').length = (upOf u0 u1 x y rest).length := by
+    intro x y; simp only [ABuf.length, upOf_bits, ← er]
+  have hb : ∀ x : ABuf, (upOf u0 u1 u2 x rest').bits = (upOf u0 u1 u2 x rest).bits := by
+    intro x; simp only [upOf_bits, ← er]
+  have htail : tailLen4 a1 a2 a3 a4 a5 a6 a7 a8 a9 a10 a11 u0 u1 u2 u3 rest' = tailLen4 a1 a2 a3 a4 a5 a6 a7 a8 a9 a10 a11 u0 u1 u2 u3 rest := by
+    unfold tailLen4; rw [hlen]
+  refine ⟨by rw [hlen]; exact hnu, by rw [htail]; exact hnt, l3, l9, l14, l15, by rw [htail]; exact htl, by rw [hlen]; exact hul, hhc, c, ?_, hcb⟩
+  rw [hlen, ← hck]
+  exact udpChecksumOf_bits _ _ _ _ rfl (hb _)
+
+theorem ip4_fields (ip : ParserInst) (hc : ip.cls = "IPv4Parser") (hnp : ip.predict = false) (fuel : Nat) (b : ABuf) (h : Header)
+    (hp : runParser fuel ip b = .ok h) : h.fields = parseFixed Gen.ipv4Layout b := by
+  unfold runParser at hp
+  simp only [hc] at hp
+  simp only [beq_self_eq_true, if_true, hnp, ipv4Parse, ipParse, bind, Except.bind, Bool.false_eq_true, if_false] at hp
+  split at hp
+  · simp [throw, throwThe, MonadExceptOf.throw] at hp
+  · split at hp
+    · simp [throw, throwThe, MonadExceptOf.throw] at hp
+    · simp only [pure, Except.pure, Except.ok.injEq] at hp
+      subst hp; rfl
+
+theorem layout_ids4 : Gen.ipv4Layout.map (·.1) ++ Gen.udpLayout.map (·.1) = ids4 ∧
+    Gen.IPv4F.all.all (fun i => claims Gen.ipv4HeaderId i) = true := by
+  decide +kernel
+
+theorem fv_bits16 (l : List Field) (h : l.length = 16) :
+    (fv l 0).bits ++ ((fv l 1).bits ++ ((fv l 2).bits ++ ((fv l 3).bits ++ ((fv l 4).bits ++ ((fv l 5).bits ++ ((fv l 6).bits ++ ((fv l 7).bits ++ ((fv l 8).bits ++ ((fv l 9).bits ++ ((fv l 10).bits ++ ((fv l 11).bits ++ ((fv l 12).bits ++ ((fv l 13).bits ++ ((fv l 14).bits ++ ((fv l 15).bits))))))))))))))) = l.flatMap (·.value.bits) := by
+  obtain ⟨x0, x1, x2, x3, x4, x5, x6, x7, x8, x9, x10, x11, x12, x13, x14, x15, rfl⟩ := length16 l h
+  simp [fv]
+
+/-- the IPv4 / UDP / CoAP-semantic variant of `roundtrip_ipv6_udp_coap_semantic`: total length, header checksum, UDP
+    length and UDP checksum may be compute (any subset) -/
+theorem roundtrip_ipv4_udp_coap_semantic
+    (ip : ParserInst) (hi4 : ip.cls = "IPv4Parser") (hinp : ip.predict = false) (hipm : ip.coapMode = .syntactic)
+    (udp : ParserInst) (hu : udp.cls = "UDPParser") (hunp : udp.predict = false) (hum : udp.coapMode = .syntactic)
+    (cs : ParserInst) (hc : cs.cls = "CoAPParser") (hsem : cs.coapMode = .semantic)
+    (fuel : Nat) (b : ABuf) (hside : b.side = .left) (h1 h2 hs : Header)
+    (hp1 : runParser fuel ip b = .ok h1) (hp2 : runParser fuel udp (b.from_ h1.length) = .ok h2)
+    (hp3 : coapParse .syntactic fuel ((b.from_ h1.length).from_ h2.length) = .ok hs) (hwf : WfNibbles (pairs hs.fields))
+    (d : Dir) (r : Rule) (rf16 restR : List RuleField) (hr : r.fields = rf16 ++ restR) (h16r : rf16.length = 16)
+    (hn : r.nature = .compression) (hdir : ∀ rf ∈ r.fields, Spec.dirApplies d rf.dir = true)
+    (hncR : ∀ rf ∈ restR, rf.cda ≠ .compute) :
+    ∃ pm : Packet, packetParse fuel [ip, udp, cs] b = .ok pm ∧
+      (Spec.applicable { pm with dir := d } r = true → AllFitsC pm.fields r.fields →
+        Valid4 (fv (h1.fields ++ h2.fields) 0) (fv (h1.fields ++ h2.fields) 1) (fv (h1.fields ++ h2.fields) 2) (fv (h1.fields ++ h2.fields) 3) (fv (h1.fields ++ h2.fields) 4) (fv (h1.fields ++ h2.fields) 5) (fv (h1.fields ++ h2.fields) 6) (fv (h1.fields ++ h2.fields) 7) (fv (h1.fields ++ h2.fields) 8) (fv (h1.fields ++ h2.fields) 9) (fv (h1.fields ++ h2.fields) 10) (fv (h1.fields ++ h2.fields) 11) (fv (h1.fields ++ h2.fields) 12) (fv (h1.fields ++ h2.fields) 13) (fv (h1.fields ++ h2.fields) 14) (fv (h1.fields ++ h2.fields) 15)
+          (pairs hs.fields ++ [(Gen.payloadId, pm.payload)]) →
+        ∃ c, compress { pm with dir := d } r = .ok c ∧ decompressU c r (some [ip, udp, cs]) none = .ok ⟨b.bits, .right⟩) := by
+  have hip : IsIp ip Gen.ipv4HeaderId Gen.ipv4Layout := ⟨.inr ⟨hi4, rfl, rfl⟩, hinp⟩
+  obtain ⟨hm, hpm, hlen, hun⟩ := coap_semantic_lossless fuel ((b.from_ h1.length).from_ h2.length) hside hs hp3 hwf
+  have c3' := coapParse_claims fuel _ hm hpm
+  refine ⟨⟨.dw, h1.fields ++ h2.fields ++ hm.fields, ((b.from_ h1.length).from_ h2.length).from_ hs.length, b⟩, ?_, ?_⟩
+  · unfold packetParse
+    simp only [packetParse.go, bind, Except.bind, hp1, hp2, coap_runParser cs hc, hsem, hpm, pure, Except.pure, List.nil_append, hlen,
+      List.append_assoc]
+  intro happ hfit hvalid
+  have e1 := ip4_fields ip hi4 hinp fuel b h1 hp1
+  have e2 := udp_fields udp hu hunp fuel _ h2 hp2
+  have h16p : (h1.fields ++ h2.fields).length = 16 := by rw [e1, e2]; rfl
+  have hids : (h1.fields ++ h2.fields).map (·.id) = ids4 := by
+    rw [List.map_append, e1, e2, parseFixed_ids, parseFixed_ids]; exact layout_ids4.1
+  generalize hpf : h1.fields ++ h2.fields = pf16 at *
+  generalize hpl : ((b.from_ h1.length).from_ h2.length).from_ hs.length = payload at *
+  obtain ⟨c3, c9, c14, c15, hcur, hent, hlrest, hfitR, mrest⟩ :=
+    ipv4_udp_shape ⟨d, pf16 ++ hm.fields, payload, b⟩ r pf16 hm.fields rf16 restR rfl hr h16p h16r hids hn hdir happ hfit hncR
+      hvalid.l3 hvalid.l9 hvalid.l14 hvalid.l15
+  have hseg : strip (assemble restR (zeroed hm.fields restR)) = strip (pairs hm.fields) := by
+    rw [zeroed_nocompute _ _ hlrest hncR]; exact strip_assemble hm.fields restR hlrest mrest
+  have hC : ClaimedBy Gen.coapHeaderId (assemble restR (zeroed hm.fields restR)) :=
+    claimedBy_of_ids (strip_ids _ _ hseg) (claimedBy_pairs c3')
+  have hcu := coapUnparseSemantic_strip _ _ hseg none 0
+  have hun' : coapUnparseSemantic (pairs hm.fields) none 0 = .ok (pairs hs.fields) := hun
+  rw [hun'] at hcu
+  obtain ⟨Uc, hUc, hUs⟩ : ∃ Uc, coapUnparseSemantic (assemble restR (zeroed hm.fields restR)) none 0 = .ok Uc ∧ strip Uc = strip (pairs hs.fields) := by
+    cases hx : coapUnparseSemantic (assemble restR (zeroed hm.fields restR)) none 0 with
+    | error e => rw [hx] at hcu; simp [Except.map] at hcu
+    | ok Uc => rw [hx] at hcu; simp only [Except.map, Except.ok.injEq] at hcu; exact ⟨Uc, rfl, hcu⟩
+  have hhu : headerUnparse cs (assemble restR (zeroed hm.fields restR)) = .ok Uc := by
+    unfold headerUnparse; rw [hc]; simp only [beq_self_eq_true, if_true, hsem, coapUnparse]; exact hUc
+  let A : Compute.Fields := [(Gen.IPv4F.VERSION, fv pf16 0), (Gen.IPv4F.HEADER_LENGTH, fv pf16 1), (Gen.IPv4F.TYPE_OF_SERVICE, fv pf16 2),
+    (Gen.IPv4F.TOTAL_LENGTH, sel c3 (ph 16) (fv pf16 3)), (Gen.IPv4F.IDENTIFICATION, fv pf16 4), (Gen.IPv4F.FLAGS, fv pf16 5),
+    (Gen.IPv4F.FRAGMENT_OFFSET, fv pf16 6), (Gen.IPv4F.TIME_TO_LIVE, fv pf16 7), (Gen.IPv4F.PROTOCOL, fv pf16 8),
+    (Gen.IPv4F.HEADER_CHECKSUM, sel c9 (ph 16) (fv pf16 9)), (Gen.IPv4F.SRC_ADDRESS, fv pf16 10), (Gen.IPv4F.DST_ADDRESS, fv pf16 11)]
+  let B : Compute.Fields := [(Gen.UDPF.SOURCE_PORT, fv pf16 12), (Gen.UDPF.DESTINATION_PORT, fv pf16 13),
+    (Gen.UDPF.LENGTH, sel c14 (ph 16) (fv pf16 14)), (Gen.UDPF.CHECKSUM, sel c15 (ph 16) (fv pf16 15))]
+  have hA : ClaimedBy Gen.ipv4HeaderId A := claimedBy_of_idlist A Gen.IPv4F.all rfl layout_ids4.2
+  have hB : ClaimedBy Gen.udpHeaderId B := claimedBy_of_idlist B Gen.UDPF.all rfl layout_ids6.2.2
+  have h3 := packetUnparse_three hip udp hu cs hc A B _ ⟨payload.bits, .right⟩ hA hB hC
+  rw [hhu] at h3
+  have hU : packetUnparse [ip, udp, cs]
+      (assemble r.fields (zeroed (pf16 ++ hm.fields) r.fields) ++ [(Gen.payloadId, (⟨payload.bits, .right⟩ : ABuf))]) =
+      .ok (stack4 (fv pf16 0) (fv pf16 1) (fv pf16 2) (sel c3 (ph 16) (fv pf16 3)) (fv pf16 4) (fv pf16 5) (fv pf16 6) (fv pf16 7) (fv pf16 8) (sel c9 (ph 16) (fv pf16 9)) (fv pf16 10) (fv pf16 11) (fv pf16 12) (fv pf16 13) (sel c14 (ph 16) (fv pf16 14)) (sel c15 (ph 16) (fv pf16 15))
+        (Uc ++ [(Gen.payloadId, (⟨payload.bits, .right⟩ : ABuf))])) := by
+    have := hcur
+    simp only at this
+    rw [this]
+    have e : stack4 (fv pf16 0) (fv pf16 1) (fv pf16 2) (sel c3 (ph 16) (fv pf16 3)) (fv pf16 4) (fv pf16 5) (fv pf16 6) (fv pf16 7) (fv pf16 8) (sel c9 (ph 16) (fv pf16 9)) (fv pf16 10) (fv pf16 11) (fv pf16 12) (fv pf16 13) (sel c14 (ph 16) (fv pf16 14)) (sel c15 (ph 16) (fv pf16 15)) (restOf hm.fields restR payload) =
+        A ++ B ++ assemble restR (zeroed hm.fields restR) ++ [(Gen.payloadId, (⟨payload.bits, .right⟩ : ABuf))] := by
+      simp [stack4, restOf, A, B]
+    rw [e, h3]
+    simp [Except.map, stack4, A, B]
+  have er : (pairs hs.fields ++ [(Gen.payloadId, payload)]).flatMap (·.2.bits) =
+      (Uc ++ [(Gen.payloadId, (⟨payload.bits, .right⟩ : ABuf))]).flatMap (·.2.bits) := by
+    simp only [List.flatMap_append, strip_flat _ _ hUs]
+    simp
+  have hv' := Valid4_rest_congr er hvalid
+  obtain ⟨res, hrun, hbits⟩ := restore4 (fv pf16 0) (fv pf16 1) (fv pf16 2) (fv pf16 3) (fv pf16 4) (fv pf16 5) (fv pf16 6) (fv pf16 7) (fv pf16 8) (fv pf16 9) (fv pf16 10) (fv pf16 11) (fv pf16 12) (fv pf16 13) (fv pf16 14) (fv pf16 15) _ hv' c3 c9 c14 c15
+  obtain ⟨c, hc1, hc2⟩ := roundtrip_compute_unparser ⟨d, pf16 ++ hm.fields, payload, b⟩ r hn hdir happ hfit [ip, udp, cs] _ res hU
+    (by rw [hent]; exact hrun)
+  refine ⟨c, hc1, ?_⟩
+  rw [hc2, hbits, stack4_bits]
+  congr 2
+  obtain ⟨t1, _⟩ := runParser_tiles fuel ip hipm b h1 hp1
+  obtain ⟨t2, _⟩ := runParser_tiles fuel udp hum _ h2 hp2
+  obtain ⟨t3, _⟩ := coapParse_tiles fuel _ hs hp3
+  have e16 := fv_bits16 pf16 h16p
+  rw [List.flatMap_append, strip_flat _ _ hUs]
+  have hpf' : pf16.flatMap (·.value.bits) = fbits h1.fields ++ fbits h2.fields := by rw [← hpf]; simp [fbits]
+  have hsb : (pairs hs.fields).flatMap (·.2.bits) = fbits hs.fields := by simp [pairs, fbits, List.flatMap_map]
+  refine Eq.trans (b := pf16.flatMap (·.value.bits) ++ ((pairs hs.fields).flatMap (·.2.bits) ++ payload.bits)) ?_ ?_
+  · rw [← e16]; simp [List.append_assoc]
   · rw [hpf', hsb, t1, t2, t3, ← hpl]
     simp only [ABuf.from_, List.append_assoc, List.take_append_drop]
 
